@@ -71,6 +71,7 @@ type Gen struct {
 	curBlock *ssa.BasicBlock
 	curSt    *State
 	sharedSet map[string]bool
+	thenMid  *State
 	curInstr ssa.Instruction
 	exits    []exitPoint
 	uses     []*Axiom
